@@ -241,6 +241,9 @@ pub fn run_script<SP: StorageProvider>(
     flags: Flags,
 ) -> Result<RunOut, Failure> {
     let mut rng = Prng(sc.seed);
+    // logs grow with every braid evaluation: only keep them when an oracle reads them
+    rep.audit.record.set(flags.audit);
+    rep.sink.enabled = false;
     let mut delivered: BTreeSet<usize> = BTreeSet::new(); // handed to add_commands successfully
     let mut committed: BTreeSet<usize> = BTreeSet::new();
     let mut out = RunOut {
@@ -404,6 +407,8 @@ pub fn run_script<SP: StorageProvider>(
         check_merge_perspectives(rep, w)?;
     }
     out.obs = rep.obs().map_err(|e| Failure::new("observation failed", e))?;
+    rep.audit.record.set(true);
+    rep.sink.enabled = true;
     Ok(out)
 }
 
